@@ -265,7 +265,7 @@ Lemma bytes_n_len n b : bytes_n n b = true -> blen b = n.
 Proof. unfold bytes_n. intros H. apply andb_true_iff in H. lia. Qed.
 
 (* what deserialize_value returns on what serialize_value_into wrote, for EVERY well-typed value:
-   the value itself, except Float(+-0.0) -> Int(0) and NaN -> the canonical NaN *)
+   the value itself, except NaN -> the canonical NaN *)
 Lemma deser_ser_value v rest :
   value_wf v = true -> deser_value (ser_value v ++ rest) = Some (canon_value v, rest).
 Proof.
@@ -282,13 +282,8 @@ Proof.
     { cbn [app]. rewrite dv_neg_inf. assert (bits = F64_NEG_INF) by lia. subst bits. reflexivity. }
     destruct (bits =? F64_INF) eqn:Hpi.
     { cbn [app]. rewrite dv_pos_inf. assert (bits = F64_INF) by lia. subst bits. reflexivity. }
-    destruct (f64_lt_zero bits) eqn:Hlt.
-    { cbn [app]. rewrite dv_neg_float, rd_u8 by assumption.
-      assert (Hz : f64_is_zero bits = false).
-      { unfold f64_lt_zero, f64_is_zero, F64_NEG_ZERO in *. lia. }
-      rewrite Hz. reflexivity. }
-    destruct (f64_is_zero bits) eqn:Hz; cbn [app].
-    + apply dv_zero.
+    destruct (f64_lt_zero bits) eqn:Hlt; cbn [app].
+    + rewrite dv_neg_float, rd_u8 by assumption. reflexivity.
     + rewrite dv_pos_float, rd_u8 by assumption. reflexivity.
   - (* Text *) cbn [app]. rewrite <- app_assoc, dv_text, rd_lp_ok by assumption. cbn [bind].
     match goal with H : utf8_valid _ = true |- _ => rewrite H end. reflexivity.
@@ -387,43 +382,29 @@ Proof. induction r as [|v r IH]; [reflexivity|]. cbn [row_same]. rewrite value_s
 Lemma rows_same_refl r : rows_same r r = true.
 Proof. induction r as [|v r IH]; [reflexivity|]. cbn [rows_same]. rewrite row_same_refl, IH. reflexivity. Qed.
 
-(* outside the recorded class the value that comes back is equal to the one written *)
-Lemma canon_same v : value_zero_float v = false -> value_same v (canon_value v) = true.
+(* the value that comes back is equal to the one written *)
+Lemma canon_same v : value_same v (canon_value v) = true.
 Proof.
-  intros Hz. destruct v; try apply value_same_refl.
-  cbn [value_zero_float] in Hz. cbn [canon_value]. rewrite Hz.
+  destruct v; try apply value_same_refl.
+  cbn [canon_value].
   destruct (f64_is_nan bits) eqn:Hn; [|apply value_same_refl].
   cbn [value_same]. unfold f64_same. rewrite Hn. change (f64_is_nan F64_CANON_NAN) with true.
   apply orb_true_r.
 Qed.
-Lemma canon_row_same row : row_zero_float row = false -> row_same row (map canon_value row) = true.
+Lemma canon_row_same row : row_same row (map canon_value row) = true.
 Proof.
-  unfold row_zero_float. induction row as [|v row IH]; intros H; [reflexivity|].
-  cbn [existsb] in H. apply orb_false_iff in H. destruct H as [Hv Hr].
-  cbn [map row_same]. rewrite canon_same by exact Hv. rewrite IH by exact Hr. reflexivity.
+  induction row as [|v row IH]; [reflexivity|].
+  cbn [map row_same]. rewrite canon_same, IH. reflexivity.
 Qed.
-Lemma canon_rows_same rows :
-  existsb row_zero_float rows = false -> rows_same rows (map (map canon_value) rows) = true.
+Lemma canon_rows_same rows : rows_same rows (map (map canon_value) rows) = true.
 Proof.
-  induction rows as [|r rows IH]; intros H; [reflexivity|].
-  cbn [existsb] in H. apply orb_false_iff in H. destruct H as [Hv Hr].
-  cbn [map rows_same]. rewrite canon_row_same by exact Hv. rewrite IH by exact Hr. reflexivity.
-Qed.
-
-(* in the class the value that comes back has another type *)
-Lemma canon_zero_float_differs v : value_zero_float v = true -> value_wf v = true -> value_same v (canon_value v) = false.
-Proof.
-  intros Hz W. destruct v; cbn [value_zero_float] in Hz; try discriminate.
-  cbn [canon_value]. rewrite Hz.
-  assert (Hn : f64_is_nan bits = false).
-  { unfold f64_is_zero in Hz. apply orb_true_iff in Hz. destruct Hz as [Hz|Hz]; apply Z.eqb_eq in Hz; subst bits; reflexivity. }
-  rewrite Hn. reflexivity.
+  induction rows as [|r rows IH]; [reflexivity|].
+  cbn [map rows_same]. rewrite canon_row_same, IH. reflexivity.
 Qed.
 
 Lemma canon_exact v : value_exact v = true -> canon_value v = v.
 Proof.
-  destruct v; try reflexivity. cbn [value_exact canon_value]. intros H.
-  apply andb_true_iff in H. destruct H as [Hz Hn]. apply negb_true_iff in Hz. rewrite Hz.
+  destruct v; try reflexivity. cbn [value_exact canon_value]. intros Hn.
   destruct (f64_is_nan bits); [|reflexivity].
   cbn [negb orb] in Hn. f_equal. lia.
 Qed.
@@ -440,12 +421,12 @@ Lemma row_serde_behaviour_l : forall row rest,
 Proof. exact deser_ser_row_l. Qed.
 
 Lemma row_serde_roundtrip_l : forall row rest,
-  row_wf row = true -> row_zero_float row = false ->
+  row_wf row = true ->
   exists row', deser_row (ser_row row ++ rest) = Some (row', rest) /\ row_same row row' = true.
 Proof.
-  intros row rest W K. exists (map canon_value row). split.
+  intros row rest W. exists (map canon_value row). split.
   - apply deser_ser_row_l. exact W.
-  - apply canon_row_same. exact K.
+  - apply canon_row_same.
 Qed.
 
 Lemma row_serde_roundtrip_exact_l : forall row rest,
@@ -454,38 +435,22 @@ Lemma row_serde_roundtrip_exact_l : forall row rest,
 Proof. intros row rest W E. rewrite deser_ser_row_l by assumption. rewrite canon_row_exact by exact E. reflexivity. Qed.
 
 Lemma row_serde_at_offset_l : forall pre row rest,
-  row_wf row = true -> row_zero_float row = false ->
+  row_wf row = true ->
   exists row', deser_row_at (pre ++ ser_row row ++ rest) (blen pre) = Some (row', blen pre + blen (ser_row row))
                /\ row_same row row' = true.
 Proof.
-  intros pre row rest W K. exists (map canon_value row). split.
+  intros pre row rest W. exists (map canon_value row). split.
   - apply deser_row_at_l. exact W.
-  - apply canon_row_same. exact K.
+  - apply canon_row_same.
 Qed.
 
 Lemma row_serde_concat_l : forall rows rest,
-  forallb row_wf rows = true -> existsb row_zero_float rows = false ->
+  forallb row_wf rows = true ->
   exists rows', deser_rows (length rows) (ser_rows rows ++ rest) = Some (rows', rest) /\ rows_same rows rows' = true.
 Proof.
-  intros rows rest W K. exists (map (map canon_value) rows). split.
+  intros rows rest W. exists (map (map canon_value) rows). split.
   - apply deser_ser_rows_l. exact W.
-  - apply canon_rows_same. exact K.
-Qed.
-
-(* the recorded finding, as a theorem about the model: EVERY row in the class comes back different *)
-Lemma row_serde_zero_float_l : forall row rest,
-  row_wf row = true -> row_zero_float row = true ->
-  exists row', deser_row (ser_row row ++ rest) = Some (row', rest) /\ row_same row row' = false.
-Proof.
-  intros row rest W K. exists (map canon_value row). split; [apply deser_ser_row_l; exact W|].
-  unfold row_wf in W. apply andb_true_iff in W. destruct W as [W _].
-  unfold row_zero_float in K. clear rest.
-  induction row as [|v row IH]; [discriminate|].
-  cbn [forallb] in W. apply andb_true_iff in W. destruct W as [Wv Wr].
-  cbn [existsb] in K. cbn [map row_same].
-  destruct (value_zero_float v) eqn:Hv.
-  - rewrite canon_zero_float_differs by assumption. reflexivity.
-  - cbn [orb] in K. rewrite IH by assumption. apply andb_false_r.
+  - apply canon_rows_same.
 Qed.
 
 (* ------------------------------------------------------------------ row_size *)
@@ -500,12 +465,8 @@ Proof.
   - destruct (f64_is_nan bits); cbn [orb]; [reflexivity|].
     destruct (bits =? F64_NEG_INF); cbn [orb]; [reflexivity|].
     destruct (bits =? F64_INF); cbn [orb]; [reflexivity|].
-    destruct (f64_lt_zero bits) eqn:Hlt.
-    + assert (Hz : f64_is_zero bits = false).
-      { unfold f64_lt_zero, f64_is_zero, F64_NEG_ZERO in *. lia. }
-      rewrite Hz, blen_cons, blen_be_bytes. cbv [Z.of_nat Pos.of_succ_nat Pos.succ]. lia.
-    + destruct (f64_is_zero bits); [reflexivity|].
-      rewrite blen_cons, blen_be_bytes. cbv [Z.of_nat Pos.of_succ_nat Pos.succ]. lia.
+    destruct (f64_lt_zero bits) eqn:Hlt;
+      rewrite blen_cons, blen_be_bytes; cbv [Z.of_nat Pos.of_succ_nat Pos.succ]; lia.
 Qed.
 
 Lemma row_size_fold row : forall a,
@@ -527,22 +488,19 @@ Qed.
 
 (* ------------------------------------------------------------------ PartitionSpiller, one partition *)
 Lemma spiller_read_l : forall budget rows,
-  forallb row_wf rows = true -> existsb row_zero_float rows = false ->
+  forallb row_wf rows = true ->
   exists out, spiller_read budget rows = Some out /\ rows_same rows out = true.
 Proof.
-  intros budget rows W K. unfold spiller_read.
+  intros budget rows W. unfold spiller_read.
   destruct (spiller_spilled budget rows).
   - pose proof (deser_ser_rows_l rows [] W) as H. rewrite app_nil_r in H. rewrite H.
-    exists (map (map canon_value) rows). split; [reflexivity|]. apply canon_rows_same. exact K.
+    exists (map (map canon_value) rows). split; [reflexivity|]. apply canon_rows_same.
   - exists rows. split; [reflexivity|]. apply rows_same_refl.
 Qed.
 
-(* ------------------------------------------------------------------ witnesses (run on the real code as known-finding witnesses) *)
-Lemma row_serde_roundtrip_refuted_l :
-  exists row, row_wf row = true /\
-    deser_row (ser_row row) = Some ([VInt 7; VInt 0], []) /\ row_same row [VInt 7; VInt 0] = false.
-Proof. exists [VInt 7; VFloat 0]. vm_compute. repeat split. Qed.
-
-Lemma partition_spiller_budget_refuted_l :
-  spiller_read 0 [[VFloat 0]] = Some [[VInt 0]] /\ spiller_read 1000 [[VFloat 0]] = Some [[VFloat 0]].
-Proof. vm_compute. split; reflexivity. Qed.
+(* the rows of the former finding F-C33-1 (fixed by /repo commit a939896): +0.0 and -0.0 come back
+   bit for bit, and a spiller gives the same rows whether or not it spilled *)
+Lemma zero_float_regression_l :
+  deser_row (ser_row [VInt 7; VFloat 0; VFloat F64_NEG_ZERO]) = Some ([VInt 7; VFloat 0; VFloat F64_NEG_ZERO], []) /\
+  spiller_read 0 [[VFloat 0]] = Some [[VFloat 0]] /\ spiller_read 1000 [[VFloat 0]] = Some [[VFloat 0]].
+Proof. vm_compute. repeat split. Qed.
